@@ -365,6 +365,15 @@ impl SortedUintVec {
             return Err(ZiporaError::invalid_data("bit extraction out of bounds"));
         }
 
+        // A field that reaches into a ninth byte does not fit the 64-bit window of the paths below
+        if bit_shift + bit_width as usize > 64 {
+            let mut buf = [0u8; 16];
+            let n = ((bit_shift + bit_width as usize + 7) / 8).min(data.len() - byte_offset);
+            buf[..n].copy_from_slice(&data[byte_offset..byte_offset + n]);
+            let mask = if bit_width < 64 { (1u64 << bit_width) - 1 } else { u64::MAX };
+            return Ok(((u128::from_le_bytes(buf) >> bit_shift) as u64) & mask);
+        }
+
         // Use enhanced BMI2 instructions if available for efficient bit extraction
         #[cfg(target_arch = "x86_64")]
         {
@@ -829,8 +838,8 @@ impl SortedUintVecBuilder {
             value
         };
 
-        // Store bits using bit manipulation
-        let shifted_value = masked_value << bit_shift;
+        // Store bits using bit manipulation (u128: bit_shift + bit_width can exceed 64)
+        let shifted_value = (masked_value as u128) << bit_shift;
         
         for i in 0..bytes_needed {
             if byte_offset + i < data.len() {
@@ -873,8 +882,8 @@ impl SortedUintVecBuilder {
             value
         };
 
-        // Store bits using bit manipulation
-        let shifted_value = masked_value << bit_shift;
+        // Store bits using bit manipulation (u128: bit_shift + bit_width can exceed 64)
+        let shifted_value = (masked_value as u128) << bit_shift;
         
         for i in 0..bytes_needed {
             if byte_offset + i < data.len() {
